@@ -72,6 +72,12 @@ func c18Table() []c18AVP {
 		{"generated/app0", "GenV-Unsigned32", atoms.KU32, []reflect.Type{tU32}},
 		{"generated/app0", "GenVM-UTF8String", atoms.KUTF8, []reflect.Type{tString}}, // vendor id, must without V
 		{"generated/app0", "GenNV-Unsigned32", atoms.KU32, []reflect.Type{tU32}},      // no vendor id, must lists V
+		{"generated/app0", "GenVN-UTF8String", atoms.KUTF8, []reflect.Type{tString, dt(datatype.UTF8String(""))}}, // vendor id, must-not lists V
+		// fields declared with a go-diameter datatype OTHER than the one the dictionary gives the AVP
+		// (convertible): the AVP still gets the dictionary's type
+		{"default/app4", "Origin-Host", atoms.KIdent, []reflect.Type{dt(datatype.UTF8String("")), dt(datatype.OctetString(""))}},
+		{"default/app4", "Disconnect-Cause", atoms.KEnum, []reflect.Type{dt(datatype.Integer32(0))}},
+
 	}
 }
 
@@ -320,6 +326,15 @@ func c18Dynamic(cs C18Case) string {
 	}
 	if !bytes.Equal(got[20:], want) {
 		return fmt.Sprintf("AVPs produced by Marshal %x differ from the AVPs built by hand from the dictionary entry %x", got[20:], want)
+	}
+	// ... and each carries a value of the data type the dictionary declares for it (what a caller
+	// building the AVP by hand would put there), whatever go-diameter type the struct field has
+	if da, err := c.A.D.P.FindAVP(hd.App, a.Name); err == nil {
+		for _, x := range m.AVP {
+			if x.Data != nil && x.Data.Type() != da.Data.Type {
+				return fmt.Sprintf("the AVP produced by Marshal holds a %T, the dictionary declares %s as %s", x.Data, a.Name, da.Data.TypeName)
+			}
+		}
 	}
 	// round trips: directly and over the wire
 	for _, via := range []string{"direct", "wire"} {
@@ -839,7 +854,7 @@ func runC18(ctx *ev.Ctx) {
 			}
 		}
 	}
-	ctx.Rule = "struct types built with reflect.StructOf: one field for each of 21 dictionary AVPs (including a vendor-specific AVP whose must attribute does not list V and a vendor-less one whose must does) (every scalar data type, a vendor-specific AVP, Float32/64, IPv4/6, IPFilterRule, QoSFilterRule from a generated dictionary) x each Go holder type (native scalar, datatype type, net.IP, []byte, time.Time) x wrapper {T, *T, []T, []*T} x nine tag forms (plain, omitempty, each with a second key before/after, other keys carrying their own ,omitempty option before/after) x values {boundary atoms; nil pointer; nil, empty, 1-, 2- and 4-element slices}; plus static shapes: nested struct, pointer to struct, slice of structs with omitempty members (an element or a pointed-to struct all of whose members are omitted still yields its - empty - Grouped AVP), slice of pointers, anonymous embedded struct (first, after a tagged field, in the middle, of an unexported type), group in group, AVP / *AVP / []*AVP fields; the struct shapes also in a message carrying a private dictionary that defines every name used with another code, other flags and vendor ids (members of nested structs must be resolved through the message's dictionary too). Every other case marshals into a message that already holds an AVP and has been marshalled into before. Oracle: the AVP bytes Marshal produces equal the AVPs built by hand from the reference dictionary entry (code, vendor id, M from must, V from vendor, typed value); Unmarshal directly and after Serialize+ReadMessage reproduces the field values (nil == empty for slices, times by second, floats by bits)."
+	ctx.Rule = "struct types built with reflect.StructOf: one field for each of 24 (AVP, holder family) rows - including fields declared with a go-diameter datatype other than the dictionary's, and a vendor-specific AVP whose must-not lists V - (including a vendor-specific AVP whose must attribute does not list V and a vendor-less one whose must does) (every scalar data type, a vendor-specific AVP, Float32/64, IPv4/6, IPFilterRule, QoSFilterRule from a generated dictionary) x each Go holder type (native scalar, datatype type, net.IP, []byte, time.Time) x wrapper {T, *T, []T, []*T} x nine tag forms (plain, omitempty, each with a second key before/after, other keys carrying their own ,omitempty option before/after) x values {boundary atoms; nil pointer; nil, empty, 1-, 2- and 4-element slices}; plus static shapes: nested struct, pointer to struct, slice of structs with omitempty members (an element or a pointed-to struct all of whose members are omitted still yields its - empty - Grouped AVP), slice of pointers, anonymous embedded struct (first, after a tagged field, in the middle, of an unexported type), group in group, AVP / *AVP / []*AVP fields; the struct shapes also in a message carrying a private dictionary that defines every name used with another code, other flags and vendor ids (members of nested structs must be resolved through the message's dictionary too). Every other case marshals into a message that already holds an AVP and has been marshalled into before. Oracle: the AVP bytes Marshal produces equal the AVPs built by hand from the reference dictionary entry (code, vendor id, M from must, V from vendor, typed value); Unmarshal directly and after Serialize+ReadMessage reproduces the field values (nil == empty for slices, times by second, floats by bits)."
 	ctx.Assume = []string{"holder types are those for which the reflect code has a conversion path (AssignableTo / ConvertibleTo); Address holders carry IPv4 / IPv6 only"}
 }
 
